@@ -883,10 +883,15 @@ def crosscheck(env, jb, kw, seed):
                 a = np.asarray(nat[n], dtype=float)
                 if not np.all(np.isfinite(a)):
                     raise RuntimeError("native output %s not finite at the cross-check point" % n)
-                err = float(np.max(np.abs(a - symout[n]) / (1e-10 + np.abs(a) + np.abs(symout[n])))) if a.size else 0.0
+                # entries that are exactly 0 symbolically come out as cancellation noise natively: the floor scales with the
+                # largest entry of the output
+                floor = 1e-6 * max(1e-4, float(np.max(np.abs(a)))) if a.size else 1e-10
+                err = float(np.max(np.abs(a - symout[n]) / (floor + np.abs(a) + np.abs(symout[n])))) if a.size else 0.0
                 worst = max(worst, err)
                 if err > 1e-7:
-                    return dict(ok=False, error="shim cross-check mismatch on %s.%s: rel err %.3g" % (h.fq, n, err))
+                    k = int(np.argmax(np.abs(a - symout[n]) / (floor + np.abs(a) + np.abs(symout[n]))))
+                    return dict(ok=False, error="shim cross-check mismatch on %s.%s: rel err %.3g (entry %d: native %r, symbolic %r)" % (
+                        h.fq, n, err, k, float(a.reshape(-1)[k]), float(np.asarray(symout[n]).reshape(-1)[k])))
             checked += 1
             done = True
             break
